@@ -48,6 +48,7 @@ type world struct {
 	log   []string
 	kinds map[string]int
 	step  int
+	poster string
 }
 
 func (w *world) hist() string {
@@ -245,7 +246,7 @@ func (w *world) doStep() bool {
 				newest = old
 			}
 		}
-		a := &art{title: title, poster: "Newsie", body: body, parent: parent, prev: newest}
+		a := &art{title: title, poster: w.poster, body: body, parent: parent, prev: newest}
 		if newest != 0 {
 			n.arts[newest].next = id
 		}
@@ -510,12 +511,23 @@ func runCase(c *core.Case) {
 		return
 	}
 	defer srv.Close()
-	cl, err := refclient.LoginAs(srv, "10.18.0.1:1", "admin", "", "Newsie")
+	poster := "Newsie"
+	switch c.R.Intn(4) {
+	case 0:
+		poster = string(c.R.Printable(255))
+	case 1:
+		poster = string(c.R.Printable(200 + c.R.Intn(56)))
+	}
+	poster = strings.TrimSpace(poster) + "."
+	if len(poster) > 255 {
+		poster = poster[:255]
+	}
+	cl, err := refclient.LoginAs(srv, "10.18.0.1:1", "admin", "", poster)
 	if err != nil {
 		c.Unsure("login: %v", err)
 		return
 	}
-	w := &world{c: c, srv: srv, cl: cl, kinds: map[string]int{}, root: &node{typ: 2, kids: map[string]*node{}, arts: map[uint32]*art{}}}
+	w := &world{c: c, srv: srv, cl: cl, poster: poster, kinds: map[string]int{}, root: &node{typ: 2, kids: map[string]*node{}, arts: map[uint32]*art{}}}
 	steps := 15 + c.R.Intn(21)
 	for w.step = 1; w.step <= steps; w.step++ {
 		if !w.doStep() || !w.check() {
